@@ -275,11 +275,14 @@ func scan(r row, res *Result, input []byte, t atype) error {
 			r[t.pos] = input[:32]
 		}
 	case 'd':
+		if len(input) < 32 {
+			return errors.New("EOF")
+		}
 		length := int(bint.Decode(input[:32]))
 		if length == 0 {
 			return nil
 		}
-		if len(input) < 32+length {
+		if length < 0 || len(input)-32 < length {
 			return errors.New("EOF")
 		}
 		if t.sel {
@@ -315,7 +318,7 @@ func scan(r row, res *Result, input []byte, t atype) error {
 					return errors.New("EOF")
 				}
 				offset := int(bint.Decode(input[pos : pos+32]))
-				if len(input) < start+offset {
+				if offset < 0 || len(input)-start < offset {
 					return errors.New("EOF")
 				}
 				err := scan(r, res, input[start+offset:], *t.elem)
@@ -347,7 +350,7 @@ func scan(r row, res *Result, input []byte, t atype) error {
 					return errors.New("EOF")
 				}
 				offset := int(bint.Decode(input[pos : pos+32]))
-				if len(input) < offset {
+				if offset < 0 || len(input) < offset {
 					return errors.New("EOF")
 				}
 				err := scan(r, res, input[offset:], f)
